@@ -40,6 +40,7 @@ import (
 	"verifharness/ref/rsm4"
 	"verifharness/sm2x"
 	"verifharness/tlsx"
+	"verifharness/wire"
 )
 
 var R = hx.NewRecorder("C20", "cases = generated concurrent workloads run under the Go race detector: 2..32 goroutines released by one barrier, each with 1..6 operations (hash, block-cipher calls on ONE shared cipher object, SM4 mode functions, SM2 sign/verify/encrypt/decrypt/keygen with shared keys, certificate parse / chain verification against ONE shared pool, PKCS#7 BER parse and verify), generated yield points; first use of the curve from many goroutines in a fresh process; K simultaneous connections sharing one server Config and one client Config + session cache while ticket keys rotate; one connection with concurrent readers, writers, observers and Close; "+
@@ -49,7 +50,7 @@ func TestMain(m *testing.M) {
 	if os.Getenv("C20_CHILD") != "" {
 		os.Exit(firstUseChild(os.Getenv("C20_CHILD")))
 	}
-	R.Require("close_while_write_blocked", "op:cache", "op:sm4_block", "op:sm3", "op:sm2_sign", "op:sm2_verify", "op:sm2_decrypt", "op:x509_verify", "op:pkcs7_ber", "op:sm4_mode", "goroutines>=16", "first_use", "shared_config_gm", "shared_config_tls", "conn_multi_writer", "conn_multi_reader", "conn_close_concurrent", "rotation_concurrent", "cache_multikey_warm", "conn_hostile_record")
+	R.Require("close_while_write_blocked", "op:cache", "op:sm4_block", "op:sm3", "op:sm2_sign", "op:sm2_verify", "op:sm2_decrypt", "op:x509_verify", "op:pkcs7_ber", "op:sm4_mode", "goroutines>=16", "first_use", "shared_config_gm", "shared_config_tls", "conn_multi_writer", "conn_multi_reader", "conn_close_concurrent", "rotation_concurrent", "cache_multikey_warm", "conn_hostile_record", "shared_client_config_client_auth", "cca:gm", "cca:tls")
 	hx.Main(m, R)
 }
 
@@ -1603,5 +1604,120 @@ func watchdog(wg *sync.WaitGroup, desc string) {
 		n := runtime.Stack(buf, true)
 		fmt.Printf("INCONCLUSIVE: goroutines still blocked after 180 s: %s\n%s\n", desc, buf[:n])
 		os.Exit(3)
+	}
+}
+
+// gateConn holds back the FIRST write of its owner until every connection of the group is about to make its first
+// write; then all go at once. Used on the server side: the flights that carry the CertificateRequest reach all clients
+// together, so the clients - which share one Config - work through them at the same moment.
+type gateConn struct {
+	*wire.Conn
+	g     *gate
+	armed bool
+}
+
+type gate struct {
+	mu      sync.Mutex
+	n, want int
+	ch      chan struct{}
+}
+
+func (g *gate) wait() {
+	g.mu.Lock()
+	g.n++
+	if g.n == g.want {
+		close(g.ch)
+	}
+	g.mu.Unlock()
+	select {
+	case <-g.ch:
+	case <-time.After(10 * time.Second): // a connection of the group ended before its first write; carry on
+	}
+}
+
+func (c *gateConn) Write(p []byte) (int, error) {
+	if !c.armed {
+		c.armed = true
+		c.g.wait()
+	}
+	return c.Conn.Write(p)
+}
+
+// Many clients share ONE Config that holds a static client certificate (Certificates, Leaf not set - what the loaders
+// return), the servers require client certificates, no session is cached (every handshake is a full one), and the server
+// flights are released together. Every handshake must complete with mutual authentication and carry its data intact; the
+// race detector watches the shared Config, which the handshakes may read but not write.
+func TestC20_ConcurrentClientAuth(t *testing.T) {
+	p := tlsx.GetPKI()
+	rounds := hx.N(6, 60)
+	for round := 0; round < rounds; round++ {
+		for _, mode := range []string{"gm", "tls"} {
+			k := []int{2, 4, 8}[round%3]
+			id := fmt.Sprint("cca", round, mode)
+			var cc, sc *gmtls.Config
+			if mode == "gm" {
+				cc, sc = tlsx.GMClient(p, "c"+id), tlsx.GMServer(p, "s"+id)
+				cc.Certificates = []gmtls.Certificate{{Certificate: p.Client.TLS.Certificate, PrivateKey: p.Client.TLS.PrivateKey}}
+			} else {
+				cc, sc = tlsx.TLSClient(p, "c"+id), tlsx.TLSServer(p, p.RSASrv, "s"+id)
+				cc.Certificates = []gmtls.Certificate{{Certificate: p.RSAClient.TLS.Certificate, PrivateKey: p.RSAClient.TLS.PrivateKey}}
+			}
+			// the system's randomness: no lock of the harness orders the handshakes
+			cc.Rand, sc.Rand = nil, nil
+			sc.ClientAuth, sc.ClientCAs = gmtls.RequireAndVerifyClientCert, p.RootsAll
+			sc.SessionTicketsDisabled = true
+			g := &gate{want: k, ch: make(chan struct{})}
+			type out struct {
+				r      *tlsx.ScriptedResult
+				got    []byte
+				peerOK bool
+			}
+			outs := make([]out, k)
+			var wg sync.WaitGroup
+			for i := 0; i < k; i++ {
+				wg.Add(1)
+				go func(i int) {
+					defer wg.Done()
+					o := &outs[i]
+					o.r = tlsx.RunClientAgainst(cc, fill(uint64(round*100+i), 500+i*300), func(rw *wire.Conn) error {
+						srv := gmtls.Server(&gateConn{Conn: rw, g: g}, sc)
+						if err := srv.Handshake(); err != nil {
+							return err
+						}
+						o.peerOK = len(srv.ConnectionState().PeerCertificates) > 0
+						if _, err := srv.Write([]byte("welcome")); err != nil {
+							return err
+						}
+						buf := make([]byte, 4096)
+						for {
+							n, err := srv.Read(buf)
+							o.got = append(o.got, buf[:n]...)
+							if err != nil {
+								break
+							}
+						}
+						return srv.Close()
+					})
+				}(i)
+			}
+			wg.Wait()
+			for i := range outs {
+				o := &outs[i]
+				desc := fmt.Sprintf("%s, %d clients sharing one Config with a static client certificate, connection %d: client hs=%v server err=%v", mode, k, i, o.r.GM.HSErr, o.r.PeerErr)
+				if o.r.GM.Panic != nil {
+					t.Fatalf("client PANICKED: %v\n%s\n%s", o.r.GM.Panic.Val, o.r.GM.Panic.Stack, desc)
+				}
+				if o.r.PeerPanic != nil {
+					t.Fatalf("server PANICKED: %v\n%s\n%s", o.r.PeerPanic.Val, o.r.PeerPanic.Stack, desc)
+				}
+				if o.r.GM.HSErr != nil || o.r.PeerErr != nil || !o.peerOK {
+					t.Fatalf("a mutually authenticated handshake FAILED when run next to others on the same Config (it succeeds alone)\n%s", desc)
+				}
+				if want := fill(uint64(round*100+i), 500+i*300); !bytes.Equal(o.got, want) || !bytes.Equal(o.r.GM.Received, []byte("welcome")) {
+					t.Fatalf("data of a connection was not delivered intact (%d of %d bytes at the server, %q at the client)\n%s", len(o.got), len(want), o.r.GM.Received, desc)
+				}
+			}
+			R.Case(true, hx.HashKey("cca", mode, round), "shared_client_config_client_auth", "cca:"+mode)
+		}
 	}
 }
